@@ -4399,3 +4399,579 @@ func runR068(c *Ctx) {
 		c.Check(w[o] == r[o] && w[o] != 0, name, fmt.Sprintf("codec-field@%d", o), c.Pos(get.Pos()), fmt.Sprintf("%d bits written and read", w[o]), fmt.Sprintf("the record field at byte offset %d is written with %d bits but read with %d bits: locations read back differ from the locations stored (e.g. offsets above 4 GiB come back truncated), so lookups return places that were never stored and the age comparison runs on wrong values", o, w[o], r[o]))
 	}
 }
+
+// ---------------------------------------------------------------------------
+// Round 4, second half
+
+func init() {
+	register(&Rule{
+		ID: "R11.9", Props: []string{"C11", "C17"}, Engine: "guard + constant argument (SSA)",
+		Text: "a sink that lacks the object after a copy is a server fault, not NOT_FOUND: in notFoundToInternalErrorHandler.OnError every return on the NOT_FOUND edge carries an error built with an explicit INTERNAL code (StatusWrapWithCode / status.Error(f) with codes.Internal) – a wrapper that keeps the original code would let the mirrored and caching composites mistake the failed repair for `neither replica has it`",
+		Floor: 1, MustExist: true, Run: runR119,
+	})
+	register(&Rule{
+		ID: "R17.9", Props: []string{"C17", "C11"}, Engine: "return-shape (SSA)",
+		Text: "reads through a replicating composite always carry the fall-over: GetWithBlobReplicator and GetFromCompositeWithBlobReplicator return nothing but buffer.WithErrorHandler applied to the initial backend's buffer and a handler that holds the replicator selector – a buffer of the first backend is never returned bare (stream-backed buffers fail only when read)",
+		Floor: 2, MustExist: true, Run: runR179,
+	})
+	register(&Rule{
+		ID: "R12.12", Props: []string{"C12", "C11", "C17", "C19"}, Engine: "wiring table (configuration package)",
+		Text: "the configuration never hands out a composite's backend bare: in newNestedBlobAccessBare every successful return that names its backend type sharding, mirrored, read_caching, read_fallback or demultiplexing carries a BlobAccess built by the corresponding constructor (NewShardingBlobAccess, NewMirroredBlobAccess, NewReadCachingBlobAccess, NewReadFallbackBlobAccess, NewDemultiplexingBlobAccess)",
+		Floor: 5, MustExist: true, Run: runR1212,
+	})
+	register(&Rule{
+		ID: "R15.6", Props: []string{"C15"}, Engine: "order (SSA reachability)",
+		Text: "release before waiting: in the Close methods of the background-task decorators (chunkReaderWithBackgroundTask, readerWithBackgroundTask) the wrapped reader is closed before the task's completion is awaited – the task may be consuming the sibling of the same clone group and can only finish once this consumer has let go",
+		Floor: 2, MustExist: true, Run: runR156,
+	})
+	register(&Rule{
+		ID: "R04.7", Props: []string{"C04", "C15", "C16"}, Engine: "typestate over a reader field (path automaton)",
+		Text: "only Close closes: in package buffer, for every type whose Close method closes a reader it holds in a field, no other method of the type closes that field's reader unless it installs a replacement (or nil) in the field on every path before it returns – otherwise the consumer's Close closes the same stream twice and a shared, reference-counted source is released under its other clones",
+		Floor: 2, MustExist: true, Run: runR047,
+	})
+	register(&Rule{
+		ID: "R17.10", Props: []string{"C17"}, Engine: "who-may-call",
+		Text: "the existence cache keeps full-resolution times: no method of digest.ExistenceCache converts a clock value to a coarser unit (Time.Unix, UnixMilli, UnixMicro, Truncate, Round) – expiry decided on truncated timestamps keeps entries alive beyond the configured duration",
+		Floor: 1, MustExist: false, Run: runR1710,
+	})
+	register(&Rule{
+		ID: "R19.10", Props: []string{"C19"}, Engine: "order (path automaton)",
+		Text: "the hierarchical fallback tries every ancestor: in both error handlers of hierarchicalInstanceNamesBlobAccess the decision that no ancestor is left (the return that passes the NOT_FOUND on) is taken on the list as it stands – on no path has the list already been shortened in that call – and by comparing its length with exactly one",
+		Floor: 2, MustExist: true, Run: runR1910,
+	})
+	register(&Rule{
+		ID: "R19.11", Props: []string{"C19", "C20"}, Engine: "table (literal completeness, AST)",
+		Text: "a trie node without a registered value says so: every composite literal of instanceNameTrieNode in pkg/digest sets the value field explicitly (-1 for nodes that only lead to longer prefixes); the zero value would read as `backend 0 is registered here`",
+		Floor: 2, MustExist: true, Run: runR1911,
+	})
+	register(&Rule{
+		ID: "R20.12", Props: []string{"C20"}, Engine: "order of a length and an append (SSA)",
+		Text: "a position is recorded before the list grows: in Set.PartitionByInstanceName the index stored for a newly seen instance name is the length of the partition list taken before that name's partition is appended (so that it is the position of that partition)",
+		Floor: 1, MustExist: true, Run: runR2012,
+	})
+	register(&Rule{
+		ID: "R20.13", Props: []string{"C20"}, Engine: "guard (SSA dominance, enumerated idiom)",
+		Text: "redundant slashes are rejected: every successful return of digest.NewInstanceName is dominated by the failing edges of strings.HasPrefix(value, \"/\"), strings.HasSuffix(value, \"/\") and strings.Contains(value, \"//\") and by the nil result of validateInstanceNameComponents (the repository's idiom for `no leading, trailing or doubled separator and no reserved keyword`)",
+		Floor: 1, MustExist: true, Run: runR2013,
+	})
+}
+
+func runR119(c *Ctx) {
+	fn := c.Method(replicationRel, "notFoundToInternalErrorHandler", "OnError")
+	if fn == nil {
+		c.Broken("notFoundToInternalErrorHandler.OnError not found")
+		return
+	}
+	name := FuncName(fn)
+	n := 0
+	for _, r := range returnsOf(fn) {
+		// on the NOT_FOUND edge?
+		onNF := false
+		edgeFacts(r.Block(), func(cond ssa.Value, val bool) bool {
+			if op, x, y, ok := normCmp(cond, val); ok && op == token.EQL {
+				for _, pair := range [][2]ssa.Value{{x, y}, {y, x}} {
+					if sc, isC := pair[0].(*ssa.Call); isC && isPkgFuncCall(sc.Common(), "google.golang.org/grpc/status", "Code") {
+						if k, isK := constInt(stripConv(pair[1])); isK && k == 5 {
+							onNF = true
+						}
+					}
+				}
+			}
+			return true
+		})
+		if !onNF {
+			continue
+		}
+		n++
+		ev := returnedValue(r, len(r.Results)-1)
+		okCode := false
+		if cl, ok := stripConv(ev).(*ssa.Call); ok {
+			for _, a := range cl.Call.Args {
+				if k, isK := constInt(stripConv(a)); isK && k == 13 {
+					if t := a.Type().String(); strings.HasSuffix(t, "codes.Code") {
+						okCode = true
+					}
+				}
+			}
+		}
+		c.Check(okCode, name, "relabel-internal", c.Pos(r.Pos()), "NOT_FOUND from the sink is relabelled INTERNAL", "on the NOT_FOUND edge the handler returns an error that is not built with an explicit INTERNAL code: the original NOT_FOUND code survives, so a sink that lost the object after an acknowledged copy makes the mirrored / caching composite answer NOT_FOUND although the source replica holds the object")
+	}
+	if n == 0 {
+		c.Fail(name, "relabel-internal", c.Pos(fn.Pos()), "the handler no longer distinguishes NOT_FOUND")
+	}
+}
+
+func runR179(c *Ctx) {
+	for _, fname := range []string{"GetWithBlobReplicator", "GetFromCompositeWithBlobReplicator"} {
+		fn := c.Func(replicationRel, fname)
+		if fn == nil {
+			c.Broken("replication.%s not found", fname)
+			continue
+		}
+		name := FuncName(fn)
+		bad := token.NoPos
+		for _, r := range returnsOf(fn) {
+			ok := false
+			if cl, isC := stripConv(r.Results[0]).(*ssa.Call); isC && isPkgFuncCall(cl.Common(), modPath+"/"+bufferRel, "WithErrorHandler") {
+				// the buffer comes from the initial backend, the handler holds the selector parameter
+				fromBackend, hasSelector := false, false
+				deepSlice(fn, cl.Call.Args[0], func(x ssa.Value) bool {
+					if xc, isX := x.(*ssa.Call); isX && xc.Call.IsInvoke() && (xc.Call.Method.Name() == "Get" || xc.Call.Method.Name() == "GetFromComposite") {
+						if _, isP := xc.Call.Value.(*ssa.Parameter); isP {
+							fromBackend = true
+						}
+					}
+					return !fromBackend
+				})
+				deepSlice(fn, cl.Call.Args[1], func(x ssa.Value) bool {
+					if p, isP := x.(*ssa.Parameter); isP {
+						if _, isSig := p.Type().Underlying().(*types.Signature); isSig {
+							hasSelector = true
+						}
+					}
+					return !hasSelector
+				})
+				ok = fromBackend && hasSelector
+			}
+			if !ok && bad == token.NoPos {
+				bad = r.Pos()
+			}
+		}
+		c.Check(bad == token.NoPos, name, "always-wrapped", c.Pos(func() token.Pos {
+			if bad != token.NoPos {
+				return bad
+			}
+			return fn.Pos()
+		}()), "every return is WithErrorHandler(initial backend's buffer, replicating handler)", "a buffer is returned that is not wrapped with the replicating error handler: a lazily failing (stream-backed) buffer of the first backend reports NOT_FOUND to the caller without the other backend being consulted, the object is not repaired, and other failures lose the backend's name")
+	}
+}
+
+func runR1212(c *Ctx) {
+	bare := c.Method(configurationRel, "simpleNestedBlobAccessCreator", "newNestedBlobAccessBare")
+	if bare == nil {
+		c.Broken("newNestedBlobAccessBare not found")
+		return
+	}
+	name := FuncName(bare)
+	table := map[string]string{"sharding": "NewShardingBlobAccess", "mirrored": "NewMirroredBlobAccess", "read_caching": "NewReadCachingBlobAccess", "read_fallback": "NewReadFallbackBlobAccess", "demultiplexing": "NewDemultiplexingBlobAccess"}
+	seen := map[string]bool{}
+	for _, r := range returnsOf(bare) {
+		if len(r.Results) != 3 || !isNilConst(returnedValue(r, 2)) {
+			continue
+		}
+		kc, ok := stripConv(returnedValue(r, 1)).(*ssa.Const)
+		if !ok || kc.Value == nil || kc.Value.Kind() != constant.String {
+			continue
+		}
+		kind := constant.StringVal(kc.Value)
+		ctor, known := table[kind]
+		if !known {
+			continue
+		}
+		seen[kind] = true
+		// the BlobAccess field of the returned info
+		okCtor := false
+		deepSlice(bare, returnedValue(r, 0), func(x ssa.Value) bool {
+			if cl, isC := x.(*ssa.Call); isC {
+				if sc := cl.Call.StaticCallee(); sc != nil && sc.Name() == ctor {
+					okCtor = true
+				}
+				return false
+			}
+			return !okCtor
+		})
+		// deepSlice stops at calls; the info literal's BlobAccess field store
+		if !okCtor {
+			if fs := literalStores(bare, func() ssa.Value {
+				if u, isU := stripConv(returnedValue(r, 0)).(*ssa.UnOp); isU {
+					return u.X
+				}
+				return returnedValue(r, 0)
+			}()); fs != nil {
+				if cl, isC := stripConv(fs["BlobAccess"]).(*ssa.Call); isC {
+					if sc := cl.Call.StaticCallee(); sc != nil && sc.Name() == ctor {
+						okCtor = true
+					}
+				}
+			}
+		}
+		c.Check(okCtor, name, "composite-not-bypassed "+kind, c.Pos(r.Pos()), "built by "+ctor, "a `"+kind+"` backend is handed out that was not built by "+ctor+" (a short cut returns a nested backend bare): the composite's guarantees – routing, error labelling with the shard / replica / backend name, repair – do not apply to this configuration")
+	}
+	for k := range table {
+		if !seen[k] {
+			c.Fail(name, "composite-not-bypassed "+k, c.Pos(bare.Pos()), "no successful return for backend type "+k+" found")
+		}
+	}
+}
+
+func runR156(c *Ctx) {
+	n := 0
+	for _, typ := range []string{"chunkReaderWithBackgroundTask", "readerWithBackgroundTask"} {
+		fn := c.Method(bufferRel, typ, "Close")
+		if fn == nil {
+			c.Broken("%s.Close not found", typ)
+			continue
+		}
+		var recvs []ssa.Instruction
+		var closes []*ssa.Call
+		allInstrs(fn, func(ins ssa.Instruction) {
+			if waitsForTask(ins) {
+				recvs = append(recvs, ins)
+			}
+			if cl, ok := ins.(*ssa.Call); ok && cl.Call.IsInvoke() && cl.Call.Method.Name() == "Close" {
+				closes = append(closes, cl)
+			}
+		})
+		if len(recvs) == 0 || len(closes) == 0 {
+			c.Fail(FuncName(fn), "release-before-wait", c.Pos(fn.Pos()), "Close does not both close the wrapped reader and wait for the task")
+			continue
+		}
+		n++
+		bad := false
+		for _, rv := range recvs {
+			for _, cl := range closes {
+				if reachableAvoiding(rv, cl, func(ssa.Instruction) bool { return false }) {
+					bad = true
+				}
+			}
+		}
+		c.Check(!bad, FuncName(fn), "release-before-wait", c.Pos(closes[0].Pos()), "the wrapped reader is closed before the task is awaited", "Close waits for the background task before closing the wrapped reader: when the task consumes the sibling of the same clone group (a refresh copy, a replication) it waits for this consumer to read or close, while this consumer waits for the task – both block for ever and the source is never closed")
+	}
+	_ = n
+}
+
+func runR047(c *Ctx) {
+	// types with a Close method that closes a field's reader
+	n := 0
+	for _, tf := range c.pkgFuncs(bufferRel) {
+		if tf.Name() != "Close" || tf.Signature.Recv() == nil {
+			continue
+		}
+		o, ok := tf.Object().(*types.Func)
+		if !ok {
+			continue
+		}
+		T := recvNamed(o)
+		if T == nil {
+			continue
+		}
+		// fields closed by Close
+		closed := map[*types.Var]bool{}
+		allInstrs(tf, func(ins ssa.Instruction) {
+			if cl, ok := ins.(*ssa.Call); ok && cl.Call.IsInvoke() && cl.Call.Method.Name() == "Close" {
+				if f, base := loadedField(cl.Call.Value); f != nil && isReceiverValue(tf, base) {
+					closed[f] = true
+				}
+			}
+		})
+		if len(closed) == 0 {
+			continue
+		}
+		for _, m := range c.pkgFuncs(bufferRel) {
+			if m == tf || m.Signature.Recv() == nil {
+				continue
+			}
+			mo, ok := m.Object().(*types.Func)
+			if !ok || recvNamed(mo) == nil || recvNamed(mo).Obj() != T.Obj() {
+				continue
+			}
+			for f := range closed {
+				fld := f
+				closesIt := false
+				allInstrs(m, func(ins ssa.Instruction) {
+					if cl, ok := ins.(*ssa.Call); ok && cl.Call.IsInvoke() && cl.Call.Method.Name() == "Close" {
+						if f2, base := loadedField(cl.Call.Value); f2 == fld && isReceiverValue(m, base) {
+							closesIt = true
+						}
+					}
+				})
+				if !closesIt {
+					continue
+				}
+				n++
+				bad := ""
+				var badPos token.Pos
+				explorePaths(&pathSpec{Fn: m, Init: 0, Inline: inlineOwnMethods,
+					Step: func(st int, ev pathEvent) int {
+						if ev.Ins == nil {
+							return st
+						}
+						if s, ok := ev.Ins.(*ssa.Store); ok {
+							if f2 := fieldOf(s.Addr); f2 == fld {
+								return 0
+							}
+							return st
+						}
+						if cl, ok := ev.Ins.(*ssa.Call); ok && cl.Call.IsInvoke() && cl.Call.Method.Name() == "Close" {
+							if f2, _ := loadedField(cl.Call.Value); f2 == fld {
+								return 1
+							}
+						}
+						return st
+					},
+					AtReturn: func(st int, r *ssa.Return, _ map[int]bool) {
+						if st == 1 && bad == "" {
+							bad, badPos = "returns with the closed reader still in the field", r.Pos()
+						}
+					}})
+				c.Check(bad == "", FuncName(m), "only-close-closes "+fld.Name(), c.Pos(func() token.Pos {
+					if bad != "" {
+						return badPos
+					}
+					return m.Pos()
+				}()), "a reader closed here is replaced before the method returns", T.Obj().Name()+"."+m.Name()+" closes the reader held in "+fld.Name()+" and "+bad+": "+T.Obj().Name()+".Close closes it a second time – for sources shared by clones (reference counted) the second close releases the source while another clone still reads it")
+			}
+		}
+	}
+	if n == 0 {
+		c.Fail("buffer", "only-close-closes", "-", "no reader type that closes-and-replaces its reader outside Close was found (the error-handling readers do)")
+	}
+}
+
+func runR1710(c *Ctx) {
+	T := c.LookupType(digestRel, "ExistenceCache")
+	if T == nil {
+		c.Broken("digest.ExistenceCache not found")
+		return
+	}
+	coarse := map[string]bool{"Unix": true, "UnixMilli": true, "UnixMicro": true, "Truncate": true, "Round": true}
+	n := 0
+	for _, tf := range c.pkgFuncs(digestRel) {
+		if tf.Signature.Recv() == nil {
+			continue
+		}
+		o, ok := tf.Object().(*types.Func)
+		if !ok || recvNamed(o) == nil || recvNamed(o).Obj() != T.Obj() {
+			continue
+		}
+		n++
+		bad := token.NoPos
+		withAnon(tf, func(g *ssa.Function) {
+			allInstrs(g, func(ins ssa.Instruction) {
+				if cc := callOf(ins); cc != nil {
+					if co := calleeObjOf(cc); co != nil && co.Pkg() != nil && co.Pkg().Path() == "time" && coarse[co.Name()] {
+						if rn := recvNamed(co); rn != nil && rn.Obj().Name() == "Time" {
+							bad = ins.Pos()
+						}
+					}
+				}
+			})
+		})
+		c.Check(bad == token.NoPos, FuncName(tf), "full-resolution-time", c.Pos(func() token.Pos {
+			if bad != token.NoPos {
+				return bad
+			}
+			return tf.Pos()
+		}()), "clock values are kept at full resolution", "a clock value is converted to a coarser unit in the existence cache: both sides of the expiry comparison are truncated, so an entry is still vouched for after the configured duration has passed (for sub-second durations several times as long) – an object the backend reported present too long ago is hidden as present")
+	}
+	if n == 0 {
+		c.Broken("ExistenceCache has no methods")
+	}
+}
+
+func runR1910(c *Ctx) {
+	for _, typ := range []string{"hierarchicalInstanceNamesGetErrorHandler", "hierarchicalInstanceNamesGetFromCompositeErrorHandler"} {
+		fn := c.Method("pkg/blobstore", typ, "OnError")
+		if fn == nil {
+			c.Broken("%s.OnError not found", typ)
+			continue
+		}
+		name := FuncName(fn)
+		isList := func(f *types.Var) bool {
+			_, isSlice := f.Type().Underlying().(*types.Slice)
+			return isSlice
+		}
+		// the exhausted return: (nil buffer, the parameter error itself)
+		bad := ""
+		var badPos token.Pos
+		nEx := 0
+		explorePaths(&pathSpec{Fn: fn, Init: 0,
+			Step: func(st int, ev pathEvent) int {
+				if ev.Ins == nil {
+					return st
+				}
+				if s, ok := ev.Ins.(*ssa.Store); ok {
+					if f := fieldOf(s.Addr); f != nil && isList(f) {
+						if _, isSl := s.Val.(*ssa.Slice); isSl {
+							return 1
+						}
+					}
+				}
+				return st
+			},
+			AtReturn: func(st int, r *ssa.Return, _ map[int]bool) {
+				if len(r.Results) != 2 || !isNilConst(r.Results[0]) {
+					return
+				}
+				if stripConv(r.Results[1]) != ssa.Value(fn.Params[len(fn.Params)-1]) {
+					return
+				}
+				nEx++
+				if st == 1 && bad == "" {
+					bad, badPos = "the list was already shortened on this path", r.Pos()
+				}
+				// compared with exactly one
+				okOne := dominatedByCmpDepth(r.Block(), func(op token.Token, x, y ssa.Value) bool {
+					k, isK := constInt(y)
+					if !isK || k != 1 || op != token.EQL {
+						return false
+					}
+					lc, isC := x.(*ssa.Call)
+					if !isC {
+						return false
+					}
+					bi, isB := lc.Call.Value.(*ssa.Builtin)
+					return isB && bi.Name() == "len"
+				}, 2)
+				if !okOne && bad == "" {
+					bad, badPos = "the decision is not `exactly one name is left`", r.Pos()
+				}
+			}})
+		if nEx == 0 {
+			c.Fail(name, "every-ancestor", c.Pos(fn.Pos()), "the handler never gives up (no return passes the original error on)")
+			continue
+		}
+		c.Check(bad == "", name, "every-ancestor", c.Pos(func() token.Pos {
+			if bad != "" {
+				return badPos
+			}
+			return fn.Pos()
+		}()), "gives up only when exactly one (already tried) name is left, judged before shortening the list", "the handler decides that no ancestor is left although "+bad+": the walk up the instance name hierarchy stops one level early – the empty (root) instance name is never consulted, so an object stored there is NOT_FOUND through Get while FindMissing reports it present")
+	}
+}
+
+func runR1911(c *Ctx) {
+	pkg := c.Pkg(digestRel)
+	T := c.LookupType(digestRel, "instanceNameTrieNode")
+	if pkg == nil || T == nil {
+		c.Broken("pkg/digest / instanceNameTrieNode not found")
+		return
+	}
+	n := 0
+	for _, f := range pkg.Syntax {
+		var fnName string
+		ast.Inspect(f, func(node ast.Node) bool {
+			if fd, ok := node.(*ast.FuncDecl); ok {
+				fnName = fd.Name.Name
+			}
+			cl, ok := node.(*ast.CompositeLit)
+			if !ok {
+				return true
+			}
+			tv, ok := pkg.TypesInfo.Types[cl]
+			if !ok || !types.Identical(tv.Type, T) {
+				return true
+			}
+			n++
+			has := false
+			st := T.Underlying().(*types.Struct)
+			if len(cl.Elts) == st.NumFields() && len(cl.Elts) > 0 {
+				if _, isKV := cl.Elts[0].(*ast.KeyValueExpr); !isKV {
+					has = true
+				}
+			}
+			for _, e := range cl.Elts {
+				if kv, ok := e.(*ast.KeyValueExpr); ok {
+					if id, ok := kv.Key.(*ast.Ident); ok && id.Name == "value" {
+						has = true
+					}
+				}
+			}
+			c.Check(has, "digest."+fnName, "trie-node-value", c.Pos(cl.Pos()), "the node's value is set explicitly", "a trie node is created without setting its value: it carries 0, which reads as `index 0 is registered at this prefix` – names that only share the leading components of a registered prefix are routed to backend 0 instead of being rejected, and Remove never prunes the node")
+			return true
+		})
+	}
+	if n == 0 {
+		c.Fail("digest", "trie-node-value", "-", "no literal of instanceNameTrieNode found")
+	}
+}
+
+func runR2012(c *Ctx) {
+	fn := c.Method(digestRel, "Set", "PartitionByInstanceName")
+	if fn == nil {
+		c.Broken("Set.PartitionByInstanceName not found")
+		return
+	}
+	name := FuncName(fn)
+	n := 0
+	allInstrs(fn, func(ins ssa.Instruction) {
+		mu, ok := ins.(*ssa.MapUpdate)
+		if !ok {
+			return
+		}
+		lc, ok := stripConv(mu.Value).(*ssa.Call)
+		if !ok {
+			return
+		}
+		bi, ok := lc.Call.Value.(*ssa.Builtin)
+		if !ok || bi.Name() != "len" {
+			return
+		}
+		n++
+		// the argument of len must not be the result of an append
+		_, afterAppend := isAppend(stripConv(lc.Call.Args[0]))
+		// … and an append to that very list must follow
+		follows := false
+		allInstrs(fn, func(i2 ssa.Instruction) {
+			if ac, ok := i2.(*ssa.Call); ok {
+				if _, isApp := isAppend(ac); isApp && ac.Call.Args[0] == lc.Call.Args[0] && reachableAvoiding(mu, ac, func(ssa.Instruction) bool { return false }) {
+					follows = true
+				}
+			}
+		})
+		c.Check(!afterAppend && follows, name, "position-before-append", c.Pos(mu.Pos()), "the recorded index is the position the partition is appended at", "the index recorded for an instance name is the length of the partition list after (not before) that name's partition was appended: it points one past the partition, so later digests of that name are filed under the next name's partition or the call panics")
+	})
+	if n == 0 {
+		c.PassTrivial(name, "position-before-append", c.Pos(fn.Pos()), "no position is recorded from the length of a list (literal indices only)")
+	}
+}
+
+func runR2013(c *Ctx) {
+	fn := c.Func(digestRel, "NewInstanceName")
+	if fn == nil {
+		c.Broken("digest.NewInstanceName not found")
+		return
+	}
+	name := FuncName(fn)
+	n := 0
+	for _, r := range returnsOf(fn) {
+		if !isNilConst(returnedValue(r, len(r.Results)-1)) {
+			continue
+		}
+		n++
+		have := map[string]bool{}
+		edgeFacts(r.Block(), func(cond ssa.Value, val bool) bool {
+			cnd, v := cond, val
+			for {
+				if u, ok := cnd.(*ssa.UnOp); ok && u.Op == token.NOT {
+					cnd, v = u.X, !v
+					continue
+				}
+				break
+			}
+			if cl, ok := cnd.(*ssa.Call); ok && !v {
+				if o := calleeObjOf(cl.Common()); o != nil && o.Pkg() != nil && o.Pkg().Path() == "strings" && len(cl.Call.Args) == 2 {
+					if kc, ok := cl.Call.Args[1].(*ssa.Const); ok && kc.Value != nil && kc.Value.Kind() == constant.String {
+						have[o.Name()+":"+constant.StringVal(kc.Value)] = true
+					}
+				}
+			}
+			if x, nilWhenTrue, ok := nilTest(cnd); ok && nilWhenTrue == v && isErrorType(x.Type()) {
+				if cl, ok := x.(*ssa.Call); ok && cl.Call.StaticCallee() != nil && cl.Call.StaticCallee().Name() == "validateInstanceNameComponents" {
+					have["validate"] = true
+				}
+			}
+			return true
+		})
+		var missing []string
+		for _, w := range []string{"HasPrefix:/", "HasSuffix:/", "Contains://", "validate"} {
+			if !have[w] {
+				missing = append(missing, w)
+			}
+		}
+		c.Check(len(missing) == 0, name, "no-redundant-slashes", c.Pos(r.Pos()), "leading, trailing and doubled separators and reserved keywords are rejected first", "a name is accepted without the checks "+joinComma(missing)+" having failed: instance names with a leading, trailing or doubled `/` (or a reserved keyword) become valid values – `foo/` and `foo` are then two different keys for the same place, and resource names no longer round-trip")
+	}
+	if n == 0 {
+		c.Fail(name, "no-redundant-slashes", c.Pos(fn.Pos()), "NewInstanceName never succeeds")
+	}
+}
